@@ -2003,7 +2003,8 @@ class _CollectionAttributeImpl(_HasCollectionAdapter, _AttributeImpl):
         old = self.get(
             state,
             dict_,
-            passive=PASSIVE_ONLY_PERSISTENT ^ (passive & PassiveFlag.NO_RAISE),
+            passive=(PASSIVE_ONLY_PERSISTENT | LOAD_AGAINST_COMMITTED)
+            ^ (passive & PassiveFlag.NO_RAISE),
         )
         if old is PASSIVE_NO_RESULT:
             old = self._default_value(state, dict_)
